@@ -699,6 +699,27 @@ def check_iterfit_masks(ctx, repo):
         (first is not None and any('invvar > 0' in src(v) for n in ast.walk(first.value) if isinstance(n, ast.Name) for d, v in fa.defs(n) if v is not None))
     ctx.check('C10.WEIGHT-MASK', bool(ok), f, first or f.node, 'the working mask starts as invvar > 0 (non-positive weights are never used)',
               msg='the initial working mask does not contain invvar > 0', construct='initial maskwork')
+    # MASK-EXITS: every returned mask has been combined with the working mask (which carries invvar > 0)
+    rets = [r for r in walk_local(f.node) if isinstance(r, ast.Return) and isinstance(r.value, ast.Tuple) and len(r.value.elts) == 2]
+    ctx.need(rets, 'iterfit: no (sset, mask) return found')
+    cfg = fa.cfg
+    for r in rets:
+        mk = r.value.elts[1]
+        ok = False
+        why = 'the returned mask `%s` is not a plain name' % src(mk)
+        if isinstance(mk, ast.Name):
+            scat = [st for st in walk_local(f.node) if isinstance(st, ast.Assign) and isinstance(st.targets[0], ast.Subscript)
+                    and isinstance(st.targets[0].value, ast.Name) and st.targets[0].value.id == mk.id and 'maskwork' in src(st.value)]
+            direct = [st for st in walk_local(f.node) if isinstance(st, ast.Assign) and isinstance(st.targets[0], ast.Name) and st.targets[0].id == mk.id
+                      and ('maskwork' in src(st.value) or 'invvar > 0' in src(st.value))]
+            through = [n for st in scat + direct for n in cfg.nodes_of(st)]
+            targets = cfg.nodes_of(r)
+            seen = cfg.reachable_from([cfg.entry], avoid=through)
+            ok = bool(through) and bool(targets) and not any(t.id in seen for t in targets)
+            why = 'a path reaches `return (..., %s)` at line %d without `%s[xsort] = maskwork`: the all-True initial mask is returned' % (mk.id, r.lineno, mk.id)
+        ctx.check('C10.MASK-EXITS', ok, f, r, 'return at line %d: the mask has received the working mask (invvar > 0 and rejections) on every path' % r.lineno,
+                  msg='iterfit: %s, so points with non-positive inverse variance are flagged True' % why,
+                  construct='mask returned without the working mask: ' + src(r)[:60])
     rej = [c for c in walk_local(f.node) if isinstance(c, ast.Call) and call_name(c) == 'djs_reject']
     ctx.need(rej, 'iterfit: djs_reject call not found')
     for c in rej:
@@ -774,5 +795,6 @@ def check_iterfit_loop(ctx, repo):
               msg='the initial value of %s does not let the first fit run' % q, construct='initial completion flag')
     # the un-sort scatter post-dominates the loop on the normal path
     sc = [st for st in walk_local(f.node) if isinstance(st, ast.Assign) and src(st.targets[0]) == 'outmask[xsort]']
-    ctx.check('C10.LOOP', len(sc) == 1 and src(sc[0].value) == 'maskwork' and sc[0].lineno > lp.end_lineno, f, sc[0] if sc else lp,
+    sc = [st for st in sc if st.lineno > lp.end_lineno]        # (early exits scatter too; this obligation is about the normal path)
+    ctx.check('C10.LOOP', len(sc) == 1 and src(sc[0].value) == 'maskwork', f, sc[0] if sc else lp,
               'after the loop the working mask is scattered back: outmask[xsort] = maskwork', msg='the final un-sort of the mask is missing or altered', construct='final scatter')
